@@ -291,15 +291,29 @@ def install(I):
 
     @M(r'^<(.*) as (From|Into)<(.*)>>::(from|into)$', 'From/Into identity')
     def m_from_id(I, st, f, args, fr):
-        m = re.match(r'^<(.*) as (From|Into)<(.*)>>::', strip_generics(f))
         h = I.hooks.get('from_into')
         if h:
             r = h(I, st, f, args)
             if r is not None:
                 return r
-        a, b = m.group(1), m.group(3)
+        q = parse_qualified(f)
+        if q is None:
+            return NotImplemented
+        a, tr, b = q
+        a, b = a.strip(), (b or '').strip()
+        if tr == 'Into' and b:
+            # blanket impl<T, U: From<T>> Into<U> for T
+            txt = '<%s as From<%s>>::from' % (b, a)
+            if I.prog.find_fn(txt) is not None:
+                return I.call(st, txt, args, fr)
         if a == b or _last_seg(a) == _last_seg(b):
             return I.ret(st, args[0])
+        v = deref_val(I, st, args[0]) if isinstance(args[0], Ref) else args[0]
+        str_like = ('String', 'str', '&str', '&String')
+        if isinstance(v, Str) and (b in str_like or a in str_like):
+            return I.ret(st, v)
+        if re.fullmatch(r'[A-Z]\w{0,8}', a) and isinstance(v, Str):
+            return I.ret(st, v)
         return NotImplemented
 
     # ------------------------------------------------------------------ comparisons
@@ -618,7 +632,10 @@ def install(I):
 
     @M(r'^<(.*) as Clone>::clone$', 'Clone::clone')
     def m_clone(I, st, f, args, fr):
-        return I.ret(st, clone_val(I, st, deref_val(I, st, args[0]) if isinstance(args[0], Ref) else args[0]))
+        v = args[0]
+        while isinstance(v, Ref):
+            v = I.read(st, v.cell, v.path)
+        return I.ret(st, clone_val(I, st, v))
 
     @M(r'^<(.*) as ToOwned>::to_owned$|^<str as ToString>::to_string$|^<String as ToString>::to_string$|^<String as From<&str>>::from$|^<&str as Into<String>>::into$|^String::from$|^str::to_string$|^str::to_owned$|^<&str as ToString>::to_string$|^<str as ToOwned>::to_owned$', 'str -> String')
     def m_to_string(I, st, f, args, fr):
@@ -693,6 +710,14 @@ def install(I):
             r = h(I, st, f, args)
             if r is not None:
                 return r
+        return I.ret(st, args[0])
+
+    @M(r'^<.* as AsRef<str>>::as_ref$|^<.* as Borrow<str>>::borrow$|^<.* as AsRef<\[u8\]>>::as_ref$', 'AsRef<str>::as_ref (identity on string values)')
+    def m_as_ref_str(I, st, f, args, fr):
+        return I.ret(st, args[0])
+
+    @M(r'(^|::)must_use(::<.*>)?$', 'hint::must_use (identity)')
+    def m_must_use(I, st, f, args, fr):
         return I.ret(st, args[0])
 
     @M(r'^AssertUnwindSafe$', 'AssertUnwindSafe')
@@ -917,6 +942,46 @@ def install(I):
                 r'^tracing::span::Span::', r'^debug_value$', r'^display$', r'^tracing::field::(display|debug)$',
                 r'^core::fmt::rt::<impl Arguments<.*>>', r'^Kind::', r'^std::hint::(black_box|spin_loop)$'):
         I.allow_call(pat)
+
+
+def parse_qualified(f):
+    """`<A as Trait<B>>::method` -> (A, Trait, B or None); bracket aware"""
+    if not f.startswith('<'):
+        return None
+    depth = 0
+    end = None
+    for i, c in enumerate(f):
+        if c == '<':
+            depth += 1
+        elif c == '>' and f[i - 1] not in '-=':
+            depth -= 1
+            if depth == 0:
+                end = i
+                break
+    if end is None:
+        return None
+    inner = f[1:end]
+    # top-level ' as '
+    depth = 0
+    pos = None
+    i = 0
+    while i < len(inner):
+        c = inner[i]
+        if c in '<([{':
+            depth += 1
+        elif c in ')]}' or (c == '>' and inner[i - 1] not in '-='):
+            depth -= 1
+        elif depth == 0 and inner.startswith(' as ', i):
+            pos = i
+        i += 1
+    if pos is None:
+        return None
+    a = inner[:pos]
+    tr = inner[pos + 4:]
+    j = tr.find('<')
+    if j < 0:
+        return a, tr, None
+    return a, tr[:j], tr[j + 1:-1]
 
 
 def split_top_types(s):
